@@ -48,6 +48,16 @@ Theorem C17_mean_in_range : forall l, l <> [] ->
 Proof. exact run_mean_in_range. Qed.
 Print Assumptions C17_mean_in_range.
 
+(** A value landing exactly on the running mean leaves mean and M unchanged, yet the variance is
+    re-derived from the grown count (M / (n + 1)): no "nothing changed" shortcut is sound. *)
+Theorem C17_value_at_mean : forall s : ds,
+  s_mean (ds_update s (s_mean s)) = s_mean s /\
+  d_m (s_disp (ds_update s (s_mean s))) = d_m (s_disp s) /\
+  d_var (s_disp (ds_update s (s_mean s))) = calc_pop_var (d_m (s_disp s)) (s_count s + 1) /\
+  s_count (ds_update s (s_mean s)) = s_count s + 1.
+Proof. exact ds_update_at_mean. Qed.
+Print Assumptions C17_value_at_mean.
+
 (** Arrival order is irrelevant: two orderings of the same values lead to the SAME summary
     (count, sum, mean, M, variance, range — every field). *)
 Theorem C17_order_independent : forall l l', Permutation l l' -> ds_run l = ds_run l'.
